@@ -639,6 +639,30 @@ func designated(ms []routeMatcher, rawPath string) []Route {
 	return out
 }
 
+// wholeSegments: all designated routes for the method have templates in which every parameter is a whole segment.
+func wholeSegments(rts []Route, method string) bool {
+	n := 0
+	// one template only: where a static and a templated path both match, the static one is the path item that
+	// applies, and a method it does not define is rightly answered 405
+	for _, rt := range rts {
+		if rt.Path != rts[0].Path {
+			return false
+		}
+	}
+	for _, rt := range rts {
+		if rt.Method != method {
+			continue
+		}
+		n++
+		for _, seg := range strings.Split(rt.Path, "/") {
+			if strings.Contains(seg, "{") && !(strings.HasPrefix(seg, "{") && strings.HasSuffix(seg, "}") && strings.Count(seg, "{") == 1) {
+				return false
+			}
+		}
+	}
+	return n > 0
+}
+
 // routingRule: a request reaches only an operation its request line designates; a path that designates none is
 // answered 404, one whose operations do not take the method 405 - without reaching any handler.
 func routingRule(r *CRecord, ms []routeMatcher, pkg string) []problem {
@@ -664,8 +688,11 @@ func routingRule(r *CRecord, ms []routeMatcher, pkg string) []problem {
 		out = append(out, problem{oracle, fmt.Sprintf("call t%d.o%d %s %s (fault %+v): %s", r.Task, r.Op, r.ReqMethod, clip(r.ReqPath, 120), r.Call.Fault, what), keyOf("routing/" + oracle + "/" + pkg)})
 	}
 	for i, s := range r.Sides {
-		if !s.Delivered || s.Panic != "" || !s.Returned || s.WriteErrs > 0 {
+		if !s.Delivered || s.Panic != "" || !s.Returned {
 			continue
+		}
+		if s.WriteErrs > 0 && k != "" && k != "mangle" && k != "dup-query" && k != "method" && k != "ctype" && k != "append" && k != "dup" && k != "replay" {
+			continue // the client went away under the server; after a mere rewriting of the head it is alive and the rules hold
 		}
 		switch {
 		case len(rts) == 0:
@@ -687,6 +714,10 @@ func routingRule(r *CRecord, ms []routeMatcher, pkg string) []problem {
 			if !ok {
 				add("a request reaches only an operation its request line designates", fmt.Sprintf("delivery %d: designates %v, middleware saw %q", i, forMethod, s.MiddlewareSaw))
 			}
+		case (s.Status == 404 || s.Status == 405) && s.Explicit && wholeSegments(rts, r.ReqMethod):
+			// every template the path instantiates has only whole-segment parameters: there is no way to read
+			// the path as not matching
+			add("a request whose path designates an operation is not answered 404/405", fmt.Sprintf("delivery %d: designates %v, status %d", i, forMethod, s.Status))
 		}
 	}
 	return out
